@@ -32,6 +32,8 @@ MAIN_MERGE = dict(COMMON, **{
     'nbdime.args.prettyprint_config_from_args': {'effect': None, 'raises': True},
     'nbdime.prettyprint.pretty_print_merge_decisions': {'effect': 'print_decisions', 'raises': True, 'returns': 'none'},
     'io.StringIO': {'effect': None, 'raises': False},
+    # leaf helper (looks at sys.stdout.encoding / the locale only; its own try/except covers codecs.lookup): assumed effect-free and total
+    'nbdime.nbmergeapp._stdout_is_utf8': {'effect': None, 'raises': False},
 })
 
 OUTPUT_EFFECTS = ('open_out', 'write_decisions', 'write_text', 'write_merged', 'write_merged_partial')
